@@ -824,6 +824,13 @@ def place_type(prog, f, place):
     return ty
 
 
+STD_ENUMS = {
+    "std::option::Option": {"kind": "enum", "variants": [{"name": "None", "discr": 0}, {"name": "Some", "discr": 1}]},
+    "std::result::Result": {"kind": "enum", "variants": [{"name": "Ok", "discr": 0}, {"name": "Err", "discr": 1}]},
+    "std::ops::ControlFlow": {"kind": "enum", "variants": [{"name": "Continue", "discr": 0}, {"name": "Break", "discr": 1}]},
+}
+
+
 def enum_switches(prog, f):
     """yields (block, enum adt path, {variant name: target block}, otherwise block, scrutinee place)"""
     for bi, b in enumerate(f.blocks):
@@ -845,7 +852,7 @@ def enum_switches(prog, f):
         if ty is None:
             continue
         adt = adt_of_type(strip_ref(ty))
-        a = prog.adts.get(adt)
+        a = prog.adts.get(adt) or STD_ENUMS.get(adt)
         if a is None or a["kind"] != "enum":
             continue
         by_discr = {str(v["discr"]): v["name"] for v in a["variants"]}
